@@ -273,6 +273,24 @@ Proof.
   transitivity (fsub (fadd (pv pb mb v) (fmul (fopp a) (pv pb mb vt))) (fmul (fopp a) (pv pb mb vt))); [ring | rewrite H; ring].
 Qed.
 
+(* transfer() as coded: apply_test_voltage_source first removes the voltage sources that sit directly across the input
+   nodes (a killed one would short the test source), then proceeds as above on the remaining network *)
+Lemma remove_vs_incl (N : netlist) p m e : In e (m_remove_vs p m N) -> In e N.
+Proof. unfold m_remove_vs. rewrite filter_In. tauto. Qed.
+Lemma remove_vs_none (N : netlist) p m e : In e (m_remove_vs p m N) -> is_cV (fst e) && across p m (snd e) = false.
+Proof. unfold m_remove_vs. rewrite filter_In. intros [_ H]. apply negb_true_iff in H. exact H. Qed.
+Lemma remove_vs_wf (N : netlist) p m : wf_net N -> wf_net (m_remove_vs p m N).
+Proof. unfold wf_net. rewrite !Forall_forall. intros H e He. apply H. apply (remove_vs_incl N p m e He). Qed.
+Lemma remove_vs_id (N : netlist) p m :
+  (forall e, In e N -> is_cV (fst e) && across p m (snd e) = false) -> m_remove_vs p m N = N.
+Proof. induction N as [|e N IH]; intros H; [reflexivity|]. cbn [m_remove_vs filter]. rewrite (H e (or_introl eq_refl)). cbn [negb].
+  f_equal. apply IH. intros e' He'. apply H. right. exact He'. Qed.
+Theorem probe_transfer_removed kd (N : netlist) pa ma pb mb f vt ibt :
+  (forall v ib, phys (killnet (m_remove_vs pa ma N) ++ [m_short kd pa ma f]) v ib -> pv pb mb v = f0) ->
+  phys (m_transfer_net true kd N pa ma f) vt ibt ->
+  forall a v ib, phys (killnet (m_remove_vs pa ma N) ++ [(cV, ctx2 kd pa ma f a f0 f0)]) v ib -> pv pb mb v = fmul (pv pb mb vt) a.
+Proof. unfold m_transfer_net. apply probe_transfer. Qed.
+
 (* ---- 5. the returned models as netlists ---------------------------------------- *)
 Lemma ind_sym (a b : Z) : @ind K a b = ind b a.
 Proof. unfold ind. rewrite Z.eqb_sym. reflexivity. Qed.
@@ -424,6 +442,8 @@ Print Assumptions probe_impedance.
 Print Assumptions probe_Isc.
 Print Assumptions probe_admittance.
 Print Assumptions probe_transfer.
+Print Assumptions probe_transfer_removed.
+Print Assumptions remove_vs_wf.
 Print Assumptions thevenin_net_rel.
 Print Assumptions norton_net_rel.
 Print Assumptions net_ground_indep.
